@@ -78,6 +78,16 @@ def quote(*args):
     return _quote(*args)
 
 
+_convert = None
+
+
+def convert(value):
+    global _convert
+    if _convert is None:
+        _convert = _build('emit_func_convert', '__convert')
+    return _convert(value)
+
+
 def quote_dispatch(target, quote_, quote_entity, default, default_marker):
     del calls[:]
     return quote(target, quote_, quote_entity, default, default_marker)
